@@ -1463,7 +1463,6 @@ package cache
 //@   ensures [C12.evict.amount] real(result) <= real(nEnt()) * evictFraction + real(nEnt()) * evictFraction / 2251799813685248.0
 //@       && real(result) + 1.0 > real(nEnt()) * evictFraction - real(nEnt()) * evictFraction / 2251799813685248.0
 
-
 //@ func (*shardedMap).evictLeastCounter
 //@   props C12
 //@   requires repOK(c) && keysInShard(c) && evictFraction >= 0.0 && evictFraction <= 1.0
